@@ -702,7 +702,21 @@ impl App {
                     break;
                 }
             }
-            match chunks.next(max_len) {
+            // a reader that changes to unordered reads after N bytes takes exactly those N bytes in order
+            // (like read_exact for a header followed by read_to_end), whatever else is buffered by then
+            let mut lim = max_len;
+            if ordered {
+                if let Some(n) = st.reader.switch_unordered_after {
+                    let left = (n as u64).saturating_sub(st.bytes) as usize;
+                    if left == 0 {
+                        st.want_read = true;
+                        self.wants_turn = true;
+                        break;
+                    }
+                    lim = lim.min(left);
+                }
+            }
+            match chunks.next(lim) {
                 Ok(Some(chunk)) => {
                     n_chunks += 1;
                     st.reads += 1;
